@@ -309,8 +309,10 @@ def run_cable(case):
 
     def dist():
         return d1 if env.active_process is cab["c"].wire1.action else d2
-    cable = Cable(env, dist)
+    p = case.get("loss_rate")
+    cable = Cable(env, dist) if p is None and case.get("ctor_default", True) else Cable(env, dist, p)
     cab["c"] = cable
+    lose = bool(p) and p > 0.5          # the uniform draw is pinned to 0.5 below
 
     class End:
         def __init__(self, name):
@@ -336,12 +338,22 @@ def run_cable(case):
             self.end.out.put(pkt)
     lab.inject(Sender(a), case["wl_a"], src_prefix="A")
     lab.inject(Sender(b), case["wl_b"], src_prefix="B")
-    lab.run()
+    old = wire_mod.random
+    wire_mod.random = ConstRandom(0.5)
+    try:
+        lab.run()
+    finally:
+        wire_mod.random = old
     for src, dst, other, d in (("A", b, a, d1), ("B", a, b, d2)):
         got = [r for r in dst.recs if str(r.snap[2]).startswith(src)]
         stray = [r for r in other.recs if str(r.snap[2]).startswith(src)]
         if stray:
             raise Violation("C10.cable", f"a packet sent by {src} came back to {src}", "C10.cable/crosswired")
+        if lose:
+            if got:
+                raise Violation("C10.cable", f"loss_rate={p} (draw 0.5): {len(got)} of {len(sent[src])} packets sent by {src} were "
+                                             f"delivered; each direction is a wire with the cable's loss rate", "C10.cable/loss")
+            continue
         if len(got) != len(sent[src]):
             raise Violation("C10.cable", f"{len(sent[src])} packets sent by {src}, {len(got)} reached the other end", "C10.cable/count")
         for rs, rg in zip(sent[src], got):
@@ -349,7 +361,10 @@ def run_cable(case):
             if F(rg.now) != F(rs.now) + F(d):
                 raise Violation("C10.cable", f"direction {src}->: entered {rs.now}, delay {d}, delivered {rg.now} (the other direction "
                                              f"has delay {d2 if src == 'A' else d1})", "C10.cable/independent")
-    return {"nontrivial": bool(case["wl_a"]) and bool(case["wl_b"]) and d1 != d2, "classes": ["both directions" if case["wl_a"] and case["wl_b"] else "one direction"]}
+    classes = ["both directions" if case["wl_a"] and case["wl_b"] else "one direction"]
+    if p:
+        classes.append("lossy cable: everything lost" if lose else "lossy cable: draw above the rate")
+    return {"nontrivial": bool(case["wl_a"]) and bool(case["wl_b"]) and d1 != d2, "classes": classes}
 
 
 def run_reconf(case):
@@ -469,7 +484,8 @@ def loss_strategy(tier):
 def cable_strategy(tier):
     wl = netlab.workload([0, 1], n_max=15, exact=True, min_size=0, late=False)
     return st.fixed_dictionaries({"d1": st.sampled_from([0, 0.5, 1, 4, 8]), "d2": st.sampled_from([0, 0.25, 1, 2]),
-                                  "wl_a": wl, "wl_b": wl})
+                                  "wl_a": wl, "wl_b": wl, "loss_rate": st.sampled_from([None, None, 0, 0.25, 0.75, 1]),
+                                  "ctor_default": st.booleans()})
 
 
 PROP = Property(
@@ -484,7 +500,8 @@ PROP = Property(
           "leaves within [a + min, max(a + max, previous delivery)] over the draws made between its entry and its delivery, so "
           "a discarded packet can delay nobody. (reconfigure) loss_rate / delay_dist attributes assigned after construction and "
           "reassigned at instants at which the wire is empty and idle; every packet obeys the parameters in force while it is in "
-          "the wire (constant draw 0.5, constant delay per phase: exact oracle). (cable) two endpoints, per-direction delays: packets reach only the other end at exactly a+d of their direction."),
+          "the wire (constant draw 0.5, constant delay per phase: exact oracle). (cable) two endpoints, per-direction delays: packets reach only the other end at exactly a+d of their direction; a cable's "
+          "loss rate (draw pinned to 0.5) applies to both directions."),
     facets=[
         Facet("noloss", noloss_strategy, run_noloss, quick=1200, thorough=8000,
               essential=["held back by predecessor (clamp)", "own delay decides", "zero delay"]),
@@ -497,7 +514,7 @@ PROP = Property(
         Facet("reconfigure", reconf_strategy, run_reconf, quick=500, thorough=3000,
               essential=["loss rate changed between phases", "delay changed between phases",
                          "parameters assigned after construction, before the run"]),
-        Facet("cable", cable_strategy, run_cable, quick=300, thorough=1500, essential=["both directions"]),
+        Facet("cable", cable_strategy, run_cable, quick=300, thorough=1500, essential=["both directions", "lossy cable: everything lost", "lossy cable: draw above the rate"]),
     ],
     assumptions=["frequency clause is statistical (binomial band at 1e-9); independence of draws is not testable beyond that",
                  "a Wire's loss_rate and delay_dist are public attributes; reassigning them while the wire is empty takes effect for "
